@@ -31,6 +31,10 @@ pub struct Variant {
 pub struct DetCase {
     pub forest: GForest,
     pub variants: Vec<Variant>,
+    /// roots named again in the root list (selector of the root, selector of the position): a list
+    /// like [a, b, a] is a legal argument of both writers
+    #[serde(default)]
+    pub repeat: Vec<(u16, u16)>,
 }
 
 fn prop_orders(f: &GForest, keys: &[u32]) -> Vec<Vec<usize>> {
@@ -53,9 +57,20 @@ fn prop_orders(f: &GForest, keys: &[u32]) -> Vec<Vec<usize>> {
 
 /// The four outputs (binary x3 compressions, XML with WriteUnknown) of one construction.
 pub fn outputs(f: &GForest, v: &Variant) -> Result<Vec<Vec<u8>>, Fail> {
+    outputs_with(f, v, &[])
+}
+
+pub fn outputs_with(f: &GForest, v: &Variant, repeat: &[(u16, u16)]) -> Result<Vec<Vec<u8>>, Fail> {
     let orders = prop_orders(f, &v.order_keys);
     let mut built = forest::build(f, v.mode, Some(&orders));
-    let roots = built.root_refs(f);
+    let mut roots = built.root_refs(f);
+    for (which, at) in repeat {
+        if !roots.is_empty() {
+            let r = roots[(*which as usize * roots.len()) >> 16];
+            let pos = (*at as usize * (roots.len() + 1)) >> 16;
+            roots.insert(pos, r);
+        }
+    }
     if v.churn > 0 {
         let all: Vec<rbx_types::Ref> = built.dom.descendants().map(|i| i.referent()).collect();
         for r in all {
@@ -110,8 +125,9 @@ pub fn det_case(max_nodes: usize) -> BoxedStrategy<DetCase> {
     (
         forest::forest(det_profile_multi(max_nodes)),
         proptest::collection::vec(variant_strategy(), 2..5),
+        prop_oneof![4 => Just(vec![]), 1 => proptest::collection::vec((any::<u16>(), any::<u16>()), 1..3)],
     )
-        .prop_map(|(forest, variants)| DetCase { forest, variants })
+        .prop_map(|(forest, variants, repeat)| DetCase { forest, variants, repeat })
         .boxed()
 }
 
@@ -151,9 +167,10 @@ fn classify(case: &DetCase, ctx: &mut CaseCtx) {
 
 fn inprocess_body(case: &DetCase, ctx: &mut CaseCtx) -> PropResult {
     classify(case, ctx);
-    let Some(base) = skip_unserializable(outputs(&case.forest, &case.variants[0]), ctx)? else { return Ok(()) };
+    ctx.label_if(!case.repeat.is_empty() && case.forest.roots.len() >= 2, "root_named_twice_among_several");
+    let Some(base) = skip_unserializable(outputs_with(&case.forest, &case.variants[0], &case.repeat), ctx)? else { return Ok(()) };
     for v in &case.variants[1..] {
-        let Some(o) = skip_unserializable(outputs(&case.forest, v), ctx)? else { return Ok(()) };
+        let Some(o) = skip_unserializable(outputs_with(&case.forest, v, &case.repeat), ctx)? else { return Ok(()) };
         for k in 0..4 {
             ensure!(
                 o[k] == base[k],
@@ -181,7 +198,7 @@ pub fn emit_main() -> ! {
     let cases: Vec<DetCase> = serde_json::from_str(&text).expect("cases");
     let mut out = Vec::new();
     for case in &cases {
-        let o = outputs(&case.forest, &case.variants[0]);
+        let o = outputs_with(&case.forest, &case.variants[0], &case.repeat);
         out.push(match o {
             Ok(o) => Some(o),
             Err(_) => None,
@@ -223,7 +240,7 @@ fn crossprocess_body(batch: &Batch, ctx: &mut CaseCtx) -> PropResult {
     let mine: Vec<Option<Vec<Vec<u8>>>> = batch
         .cases
         .iter()
-        .map(|c| outputs(&c.forest, &c.variants[0]).ok())
+        .map(|c| outputs_with(&c.forest, &c.variants[0], &c.repeat).ok())
         .collect();
     for round in 0..2 {
         let theirs = run_emit(&batch.cases)?;
@@ -351,6 +368,42 @@ impl Write for ShortSink {
     fn flush(&mut self) -> std::io::Result<()> {
         Ok(())
     }
+}
+
+/// Failed saves on the calling thread before a case of another check (C01, C02, C03, C06): a
+/// serializer that keeps state across calls then corrupts the next, valid, save, and that check's
+/// own oracle sees it. `k` selects which failures; returns how many saves failed.
+pub fn provoke_failed_saves(k: u64) -> usize {
+    let tiny = |v: u64| GForest {
+        nodes: vec![crate::gen::forest::GNode {
+            parent: None,
+            class: "Part".into(),
+            name: "p".into(),
+            props: vec![
+                ("Anchored".into(), crate::gen::vals::GVal::Bool(true)),
+                ("Transparency".into(), crate::gen::vals::GVal::Float32((v as f32 * 0.125).to_bits())),
+                ("Tags".into(), crate::gen::vals::GVal::Tags(vec!["a".into(), "b".into()])),
+                ("Attributes".into(), crate::gen::vals::GVal::Attributes(vec![("n".into(), crate::gen::vals::GVal::Float64(1.5f64.to_bits()))])),
+            ],
+        }],
+        roots: vec![0],
+    };
+    let mut failed = 0;
+    let plan = [
+        Interference::AttrFails { good_before: (k % 3) as u8 },
+        Interference::TypeMismatch { xml: false },
+        Interference::TypeMismatch { xml: true },
+        Interference::SinkFails { forest: tiny(k), xml: false, after: (40 + k % 200) as u16 },
+        Interference::SinkFails { forest: tiny(k), xml: true, after: (200 + k % 400) as u16 },
+    ];
+    for (i, p) in plan.iter().enumerate() {
+        if (k >> (8 + i)) & 1 == 1 || i as u64 == k % 5 {
+            if interfere(p) {
+                failed += 1;
+            }
+        }
+    }
+    failed
 }
 
 /// true = the save failed (as intended for the failing kinds)
